@@ -212,17 +212,23 @@ class _Nest:
         self.lines.append("    " * ind + text)
         return len(self.lines) - 1
 
-    def block(self, ind, scope, depth):
+    def block(self, ind, scope, depth, then_depth=0):
         scope = dict(scope)
         for _ in range(self.i(1, 3)):
-            self.stmt(ind, scope, depth)
+            self.stmt(ind, scope, depth, then_depth)
 
-    def stmt(self, ind, scope, depth):
+    def stmt(self, ind, scope, depth, then_depth=0):
         self.budget -= 1
         opts = ["def", "def", "use", "use", "use"]
         if depth < 4 and self.budget > 0:
             opts += ["if_else", "if_else", "if_else", "if", "match", "for", "while", "handle"]
+        if depth < 2 and self.budget > 0:
+            opts += ["then_chain", "then_chain"]
         k = self.pick(opts)
+        if "no_deep_then_side_nesting" in sites.SWITCHES and (k == "then_chain" or (k in ("if_else", "if") and then_depth >= 2)):
+            # open finding F69: below three ifs nested on the then side, constraints of later else branches are lost
+            sites.EXCLUDED["no_deep_then_side_nesting"] = sites.EXCLUDED.get("no_deep_then_side_nesting", 0) + 1
+            k = "use" if scope else "def"
         if k == "def" or (k == "use" and not scope):
             self.n += 1
             t = self.pick(sorted(NEST_LIT))
@@ -247,9 +253,39 @@ class _Nest:
             else:
                 idx = self.emit(ind, "def m%d: Int := A(1).ma(%s)" % (self.n, v))
             self.uses.append((idx, t, v, vt, form, dict(scope)))
-        elif k in ("if_else", "if"):
+        elif k == "then_chain":
+            # if-else nested on the THEN side, a definition at an outer level used in the else branch of an inner level
+            levels = self.i(2, 4)
+            self.budget -= levels
+            inner = dict(scope)
+            for l in range(levels):
+                self.emit(ind + l, "if vi > %d then" % self.i(0, 5))
+                if self.i(0, 1) or l == 0:
+                    self.n += 1
+                    t = self.pick(sorted(NEST_LIT))
+                    self.emit(ind + l + 1, "def n%d: %s := %s" % (self.n, t, self.pick(NEST_LIT[t])))
+                    inner["n%d" % self.n] = t
+                scopes_at = dict(inner)
+                if l == levels - 1:
+                    self.stmt(ind + l + 1, dict(inner), depth + l + 1)
+                else:
+                    pass
+                # remember the scope of this level for its else branch (emitted when unwinding)
+                setattr(self, "_tc_%d_%d" % (id(scope), l), scopes_at)
+            for l in range(levels - 1, -1, -1):
+                self.emit(ind + l, "else")
+                sc = getattr(self, "_tc_%d_%d" % (id(scope), l))
+                # the else branch of level l sees what was defined at levels 0..l-1 and before (not level l's own then-definitions)
+                visible = {n: t for n, t in sc.items()}
+                if l < levels and ("n%d" % self.n) in visible and False:
+                    pass
+                # definitions made in the then-branch of level l itself are not visible in its else branch: recompute
+                before = getattr(self, "_tc_%d_%d" % (id(scope), l - 1)) if l > 0 else dict(scope)
+                self.stmt(ind + l + 1, dict(before), depth + l + 1)
+                if before:
+                    self.stmt(ind + l + 1, dict(before), depth + l + 1)
             self.emit(ind, "if vi > %d then" % self.i(0, 5))
-            self.block(ind + 1, scope, depth + 1)
+            self.block(ind + 1, scope, depth + 1, then_depth + 1)
             if k == "if_else":
                 self.emit(ind, "else")
                 self.block(ind + 1, scope, depth + 1)
